@@ -169,6 +169,8 @@ func runConcurrent() {
 		}
 	}
 
+	records()
+	emit(-2, sweep())
 	emit(-1, "done")
 }
 
@@ -212,15 +214,69 @@ func mistake() {
 	secp256k1.HashToScalar([]byte("x"), nil)
 }
 
-func one(in [3]string) string {
-	switch in[0] {
+func call(fn string, m, d []byte) string {
+	switch fn {
 	case "H2G":
-		return secp256k1.HashToGroup([]byte(in[1]), []byte(in[2])).Hex()
+		return secp256k1.HashToGroup(m, d).Hex()
 	case "E2G":
-		return secp256k1.EncodeToGroup([]byte(in[1]), []byte(in[2])).Hex()
+		return secp256k1.EncodeToGroup(m, d).Hex()
 	default:
-		return secp256k1.HashToScalar([]byte(in[1]), []byte(in[2])).Hex()
+		return secp256k1.HashToScalar(m, d).Hex()
 	}
+}
+
+func one(in [3]string) string { return call(in[0], []byte(in[1]), []byte(in[2])) }
+
+// records: message and tag kept in ONE buffer and passed as two windows of it (the message's capacity runs over the tag),
+// twice in a row: a call that appends to its message argument rewrites the tag of the next call
+func records() {
+	for i, in := range inputs {
+		rec := make([]byte, 0, len(in[1])+len(in[2])+16)
+		rec = append(append(rec, in[1]...), in[2]...)
+		n := len(in[1])
+		m, d := rec[:n], rec[n:n+len(in[2])]
+		emit(100+i, call(in[0], m, d))
+		emit(200+i, call(in[0], m, d))
+	}
+}
+
+// sweep: every message length 0..520 under a 49-byte and (every fourth) a 16-byte tag, the three functions in rotation,
+// all results folded into one 64-bit FNV-1a value (computed by hand: the program imports nothing for it)
+func sweep() string {
+	h := uint64(14695981039346656037)
+	mix := func(s string) {
+		for i := 0; i < len(s); i++ {
+			h ^= uint64(s[i])
+			h *= 1099511628211
+		}
+	}
+
+	msg := make([]byte, 520)
+	for i := range msg {
+		msg[i] = byte(i*7 + 3)
+	}
+
+	tag49 := []byte("QUUX-V01-CS02-with-secp256k1_XMD:SHA-256_SSWU_RO_")
+	tag16 := []byte("sixteen-byte-tag")
+	fns := [3]string{"H2G", "E2G", "H2S"}
+
+	for l := 0; l <= 520; l++ {
+		mix(call(fns[l%3], msg[:l:l], tag49))
+
+		if l%4 == 0 {
+			mix(call(fns[(l/4)%3], msg[:l:l], tag16))
+		}
+	}
+
+	const digits = "0123456789abcdef"
+
+	out := make([]byte, 16)
+	for i := 15; i >= 0; i-- {
+		out[i] = digits[h&15]
+		h >>= 4
+	}
+
+	return string(out)
 }
 
 func run() {
@@ -239,6 +295,8 @@ func run() {
 			emit(i, secp256k1.HashToScalar([]byte(in[1]), []byte(in[2])).Hex())
 		}
 	}
+	records()
+	emit(-2, sweep())
 	emit(-1, "done")
 }
 
@@ -379,6 +437,47 @@ func c17Parent(p *mon.Prop, pc *mon.ParentCtx) *mon.Aggregate {
 			expected[i] = mon.H(oracle.Bytes32(oracle.HashToScalar([]byte(in.Msg), []byte(in.Dst))))
 		}
 	}
+
+	// the sweep value, computed by the oracle exactly as the programs compute it
+	sweepWant := func() string {
+		h := uint64(14695981039346656037)
+		mix := func(s string) {
+			for i := 0; i < len(s); i++ {
+				h ^= uint64(s[i])
+				h *= 1099511628211
+			}
+		}
+
+		msg := make([]byte, 520)
+		for i := range msg {
+			msg[i] = byte(i*7 + 3)
+		}
+
+		tag49, tag16 := []byte("QUUX-V01-CS02-with-secp256k1_XMD:SHA-256_SSWU_RO_"), []byte("sixteen-byte-tag")
+		ref := func(fn string, m, d []byte) string {
+			switch fn {
+			case "H2G":
+				pt, _ := oracle.HashToCurve(m, d)
+				return mon.H(oracle.EncC(pt))
+			case "E2G":
+				pt, _ := oracle.EncodeToCurve(m, d)
+				return mon.H(oracle.EncC(pt))
+			default:
+				return mon.H(oracle.Bytes32(oracle.HashToScalar(m, d)))
+			}
+		}
+		fns := [3]string{"H2G", "E2G", "H2S"}
+
+		for l := 0; l <= 520; l++ {
+			mix(ref(fns[l%3], msg[:l], tag49))
+
+			if l%4 == 0 {
+				mix(ref(fns[(l/4)%3], msg[:l], tag16))
+			}
+		}
+
+		return fmt.Sprintf("%016x", h)
+	}()
 
 	root := filepath.Join(pc.Scratch, "c17")
 
@@ -574,6 +673,36 @@ func c17Parent(p *mon.Prop, pc *mon.ParentCtx) *mon.Aggregate {
 		}
 
 		bad := 0
+
+		agg.Evaluations += 651 // the sweep
+		if got[-2] != sweepWant {
+			bad++
+			agg.ViolCount++
+			agg.Violations = append(agg.Violations, mon.Violation{
+				Property: p.ID,
+				What:     fmt.Sprintf("program %q (execution %d): the digest of the three functions over every message length 0..520 is %s, the RFC 9380 values give %s", v.Name, r.run, mon.Trunc(got[-2], 40), sweepWant),
+				Key:      "program-wrong-sweep:" + v.Name,
+				Case:     map[string]any{"variant": v.Name},
+			})
+		}
+
+		for i := range inputs {
+			for _, off := range []int{100, 200} {
+				agg.Evaluations++
+
+				if got[off+i] != expected[i] && bad == 0 {
+					bad++
+					agg.ViolCount++
+					agg.Violations = append(agg.Violations, mon.Violation{
+						Property: p.ID,
+						What: fmt.Sprintf("program %q (execution %d): %s on a message and tag held in one buffer (call %d of 2) printed %s, RFC 9380 value is %s", v.Name, r.run, inputs[i].Fn, off/100,
+							mon.Trunc(got[off+i], 80), expected[i]),
+						Key:  "program-wrong-value-record:" + v.Name,
+						Case: map[string]any{"variant": v.Name, "input": inputs[i]},
+					})
+				}
+			}
+		}
 
 		for i := range inputs {
 			agg.Evaluations++
